@@ -350,7 +350,8 @@ func (k *keeper) doAccountSettle(ctx sdk.Context, id types.AccountID) (types.Acc
 	heightDelta := sdk.NewInt(ctx.BlockHeight() - account.SettledAt)
 
 	if heightDelta.IsZero() {
-		return account, nil, false, nil
+		// nothing to settle, but callers still need the open payments (e.g. to close them)
+		return account, k.accountOpenPayments(ctx, id), false, nil
 	}
 
 	account.SettledAt = ctx.BlockHeight()
@@ -473,6 +474,8 @@ func (k *keeper) accountWithdraw(ctx sdk.Context, obj *types.Account) error {
 	}
 
 	if obj.Balance.IsZero() {
+		// nothing to pay out; still persist the record (its state may have changed)
+		k.saveAccount(ctx, obj)
 		return nil
 	}
 
@@ -494,6 +497,8 @@ func (k *keeper) paymentWithdraw(ctx sdk.Context, obj *types.Payment) error {
 	}
 
 	if obj.Balance.IsZero() {
+		// nothing to pay out; still persist the record (its state may have changed)
+		k.savePayment(ctx, obj)
 		return nil
 	}
 
